@@ -1328,7 +1328,7 @@ Proof.
   intros F.
   assert (Hnth : forall i, match nth_error ms i, nth_error ss i with
                            | Some m, Some s => Rel m s | None, None => True | _, _ => False end).
-  { induction F; intros [|i]; cbn; auto. }
+  { clear o. induction F as [|m0 s0 ms0 ss0 H0 F0 IH0]; intros [|i]; cbn; [exact I|exact I|exact H0|apply IH0]. }
   destruct o as [ver ko v|ver ko]; cbn [m_step s_step]; specialize (Hnth ver);
     destruct (nth_error ms ver) as [m|], (nth_error ss ver) as [s|]; try contradiction;
     try (exists ms; split; [reflexivity|exact F]); destruct Hnth as [HM HP].
@@ -1370,9 +1370,10 @@ Lemma history_refines ops :
   exists ms, m_run eqk hash [empty] ops = Some ms
     /\ Forall2 (fun m s => VSpec s m) ms (s_run eqk [[]] ops).
 Proof.
-  destruct (Rel_run ops [empty] [[]]) as (ms & E & F).
-  - constructor; [|constructor]. split; [exact MapInv_empty|reflexivity].
-  - exists ms. split; [exact E|]. induction F; constructor; auto using Rel_VSpec.
+  assert (F0 : Forall2 Rel [empty] [[]]).
+  { constructor; [|constructor]. split; [exact MapInv_empty|reflexivity]. }
+  destruct (Rel_run ops [empty] [[]] F0) as (ms & E & F).
+  exists ms. split; [exact E|]. clear E F0. induction F; constructor; auto using Rel_VSpec.
 Qed.
 
 Lemma find_assoc_thm m ko v ko' : MapInv m ->
@@ -1403,7 +1404,7 @@ Lemma iter_find m : MapInv m -> forall ko, Index K V eqk hash m ko = FRes (olook
 Proof. intros HM ko. apply Index_spec. exact HM. Qed.
 
 (* earlier versions stay what they were: the store only grows at the end *)
-Lemma m_run_prefix ops : forall ms ms', m_run eqk hash ms ops = Some ms' ->
+Lemma m_run_prefix ops : forall ms ms' : list (hmap K V), m_run eqk hash ms ops = Some ms' ->
   exists tl, ms' = ms ++ tl.
 Proof.
   induction ops as [|o ops IH]; intros ms ms' H; cbn [m_run] in H.
